@@ -61,6 +61,16 @@ impl Operator {
                 _ => None,
             }
         }
+        if matches!(
+            self,
+            Self::Greater | Self::GreaterE | Self::Lesser | Self::LesserE
+        ) && let (Value::Numeric(a, _), Value::Numeric(b, _)) = (&a, &b)
+            && !(a.is_no_unit() || b.is_no_unit())
+            && b.as_unitset(&a.unit).is_none()
+        {
+            // Numbers with incompatible units can not be ordered.
+            return Err(BadOp::UndefinedOperation);
+        }
         Ok(match *self {
             Self::And => Some(if a.is_true() { b } else { a }),
             Self::Or => Some(if a.is_true() { a } else { b }),
